@@ -103,6 +103,34 @@ Proof. intros E. unfold node_fill_loose. rewrite E. reflexivity. Qed.
 Lemma node_has_loose_switch nd cls r : cn_body nd = BSwitch cls r -> node_has_loose nd = sw_loose r.
 Proof. intros E. unfold node_has_loose, node_exits, sw_loose. rewrite E. reflexivity. Qed.
 
+(* the buckets of a random split *)
+Lemma buckets_loose_sim phi uu l : forall i l',
+  Forall2 (bucket_sim phi uu) (number_from i l) l' ->
+  existsb (fun cd => is_dnone (snd cd)) l = existsb (fun c => is_loose (x_dest (cc_exit c))) l'.
+Proof.
+  induction l as [|x l IH]; intros i l' H; cbn [number_from] in H; inversion H as [|a c l0 l1 Hxc Hl]; subst; cbn [existsb]; [reflexivity|].
+  destruct Hxc as [_ Hd]. cbn [fst snd] in Hd. rewrite (dest_sim_loose _ _ _ _ Hd). rewrite (IH _ _ Hl). reflexivity.
+Qed.
+
+Lemma rand_loose_sim phi uu d r :
+  rand_sim phi uu d r -> existsb (fun cd => is_dnone (snd cd)) (rd_cats d) = existsb (fun c => is_loose (x_dest (cc_exit c))) (rr_cats r).
+Proof. intros [_ _ H _]. eapply buckets_loose_sim, H. Qed.
+
+Lemma number_from_map' {X Y} (f : X -> Y) l i : number_from i (map f l) = map (fun ix => (fst ix, f (snd ix))) (number_from i l).
+Proof. revert i. induction l as [|a r IH]; intros i; cbn; [reflexivity|]. rewrite IH. reflexivity. Qed.
+
+Lemma rand_sim_fill phi uu d r tgt dd :
+  rand_sim phi uu d r -> dest_sim phi uu tgt dd -> rand_sim phi uu (dec_filled d tgt) (mkRandom (rr_result r) (map (fill_cat dd) (rr_cats r))).
+Proof.
+  intros [H1 H2 H3 H4] Ht. constructor; cbn.
+  - exact H1.
+  - exact H2.
+  - rewrite number_from_map'. clear - H3 Ht. induction H3 as [|a b l l' Hab _ IH]; cbn; constructor; [|exact IH].
+    destruct Hab as [Hn Hd]. split; [exact Hn|]. cbn [fst snd]. unfold fill_cat, fill_exit, cat_dest in *. cbn.
+    pose proof (dest_sim_loose _ _ _ _ Hd) as El. destruct (snd (snd a)); cbn in *; rewrite <- El; cbn; assumption.
+  - rewrite map_map. cbn. exact H4.
+Qed.
+
 Section Group.
 Variable fresh : nat -> id.
 Variable GP : id -> Prop.
@@ -118,13 +146,15 @@ Proof.
   unfold cluster_nodes, router_idx in *. destruct c0 as [a [j|]]; cbn in *.
   - destruct (nth_error (cs_nodes sc) a) as [x|]; [|discriminate]. destruct (nth_error (cs_nodes sc) j) as [nr|] eqn:Ej; [|discriminate].
     injection Hcn as <- <-. exists nr. split; [reflexivity|].
-    inversion Hns as [| |? ? e nr' r d0 H1 H2 H3 H4 H5 H6 H7 H8 H9]; subst.
-    unfold node_loose. rewrite H1. rewrite (node_has_loose_switch _ _ _ H6), <- (dec_loose_sim _ _ _ _ H8). reflexivity.
+    inversion Hns as [| | |? ? e nr' r d0 H1 H2 H3 H4 H5 H6 H7 H8 H9]; subst.
+    unfold node_loose. rewrite H1, (ds_random _ _ _ _ H8). rewrite (node_has_loose_switch _ _ _ H6), <- (dec_loose_sim _ _ _ _ H8). reflexivity.
   - destruct (nth_error (cs_nodes sc) a) as [x|]; [|discriminate]. injection Hcn as <- <-. exists x. split; [reflexivity|].
-    inversion Hns as [? ? e H1 H2 H3 H4|? ? cls r d0 H1 H2 H3 H4 H5|]; subst.
+    inversion Hns as [? ? e H1 H2 H3 H4|? ? cls r d0 H1 H2 H3 H4 H5|? ? rr0 dr0 H1 H2 H3 H4|]; subst.
     + unfold node_loose, node_has_loose, node_exits. rewrite H1, H2. cbn. pose proof (dest_sim_loose _ _ _ _ H4) as El.
       unfold is_dnone in El. rewrite El, orb_false_r. reflexivity.
-    + unfold node_loose. rewrite H1. rewrite (node_has_loose_switch _ _ _ H2), <- (dec_loose_sim _ _ _ _ H4). reflexivity.
+    + unfold node_loose. rewrite H1, (ds_random _ _ _ _ H4). rewrite (node_has_loose_switch _ _ _ H2), <- (dec_loose_sim _ _ _ _ H4). reflexivity.
+    + unfold node_loose. rewrite H1, (rs_random _ _ _ _ H4). unfold node_has_loose, node_exits. rewrite H2. cbn [body_cats].
+      rewrite existsb_map'. apply rand_loose_sim with (phi := phi) (uu := map cn_uuid (cs_nodes sc)). exact H4.
 Qed.
 
 Lemma has_loose_sim fuel : forall phi sr sc g, Sim phi sr sc -> has_loose fuel sr g = chas_loose fuel sc g.
@@ -159,13 +189,20 @@ Proof.
   destruct (sim_nodes _ _ _ Hsim k n c0 Hk Hc0) as (nd & o & Hcn & Hns).
   assert (Hview : (exists e, snd c0 = None /\ nd = ndx /\ cn_body nd = BBasic e /\ rn_dec n = None /\ map snd (cn_actions nd) = rn_actions n
                               /\ dest_sim phi (cuu sc) (rn_cont n) (x_dest e))
-                  \/ (exists cls r d0, cn_body ndx = BSwitch cls r /\ rn_dec n = Some d0 /\ dec_sim phi (cuu sc) d0 r /\ shape_ok cls d0)).
+                  \/ (exists cls r d0, cn_body ndx = BSwitch cls r /\ rn_dec n = Some d0 /\ dec_sim phi (cuu sc) d0 r /\ shape_ok cls d0)
+                  \/ (exists r d0, snd c0 = None /\ cn_body ndx = BRandom r /\ rn_dec n = Some d0 /\ rand_sim phi (cuu sc) d0 r)).
   { unfold cluster_nodes, router_idx in *. destruct c0 as [a [j|]]; cbn in *.
     - destruct (nth_error (cs_nodes sc) a) as [x|]; [|discriminate]. rewrite Ex in Hcn. injection Hcn as <- <-.
-      inversion Hns as [| |? ? e nr' r d0 H1 H2 H3 H4 H5 H6 H7 H8 H9]; subst. right. exists SPlain, r, d0. auto.
+      inversion Hns as [| | |? ? e nr' r d0 H1 H2 H3 H4 H5 H6 H7 H8 H9]; subst. right. left. exists SPlain, r, d0. auto.
     - rewrite Ex in Hcn. injection Hcn as <- <-.
-      inversion Hns as [? ? e H1 H2 H3 H4|? ? cls r d0 H1 H2 H3 H4 H5|]; subst; [left; exists e; auto 10|right; exists cls, r, d0; auto]. }
-  destruct Hview as [(e & Ho & -> & Hb & Hdec & Hact & Hcont)|(cls & r & d0 & Hb & Hdec & Hds & Hsh)].
+      inversion Hns as [? ? e H1 H2 H3 H4|? ? cls r d0 H1 H2 H3 H4 H5|? ? rr0 dr0 H1 H2 H3 H4|]; subst;
+        [left; exists e; auto 10|right; left; exists cls, r, d0; auto|right; right; exists rr0, dr0; auto]. }
+  destruct Hview as [(e & Ho & -> & Hb & Hdec & Hact & Hcont)|[(cls & r & d0 & Hb & Hdec & Hds & Hsh)|(r & d0 & Ho & Hb & Hdec & Hrs)]].
+  3:{ assert (Ecn : connect_node n tgt = mkRNode (rn_actions n) (Some (dec_filled d0 tgt)) (rn_cont n)) by (unfold connect_node; rewrite Hdec; reflexivity).
+      rewrite Ecn. assert (Er : router_idx c0 = fst c0) by (unfold router_idx; rewrite Ho; reflexivity). rewrite Er in *.
+      assert (Ef : node_fill_loose ndx dd = with_body ndx (BRandom (mkRandom (rr_result r) (map (fill_cat dd) (rr_cats r)))))
+        by (unfold node_fill_loose; rewrite Hb; reflexivity).
+      rewrite Ef. eapply Sim_rand_update; eauto. apply rand_sim_fill; assumption. }
   - unfold connect_node. rewrite Hdec. eapply Sim_set; eauto.
     + apply (router_idx_in fresh fresh_inj).
     + unfold node_fill_loose. rewrite Hb. exact I.
@@ -277,7 +314,7 @@ Proof.
   intros Hsim Hst Hc0 Hnq Hbq Hk Hdec Hact Hcok Hd. destruct (cond_ok_names c Hcok) as [Hnm _]. destruct Hcok as (_ & Hna & _).
   unfold noop_router_edge. rewrite Hnq, Hbq.
   destruct (sim_nodes _ _ _ Hsim k n _ Hk Hc0) as (nd & o & Hcl & Hns). unfold cluster_nodes in Hcl. cbn in Hcl. rewrite Hnq in Hcl.
-  injection Hcl as <- <-. inversion Hns as [? ? e H1 H2|? ? cls r d0 H1 H2 H3 H4 H5|]; subst; [congruence|].
+  injection Hcl as <- <-. inversion Hns as [? ? e H1 H2|? ? cls r d0 H1 H2 H3 H4 H5|? ? rr0 dr0 H1 H2 H3 H4|]; subst; [congruence| |congruence].
   assert (d0 = d) by congruence. subst d0. assert (cls = SPlain /\ r = rq) as [-> ->] by (rewrite Hbq in H2; injection H2; auto).
   pose proof (StOK_switch fresh GP _ _ _ _ _ Hst Hnq Hbq) as Hok.
   rewrite <- Hact.
